@@ -8,6 +8,7 @@ from __future__ import annotations
 
 import ast
 import inspect
+import logging
 import json
 import os
 import typing
@@ -30,6 +31,7 @@ from oracle.pairing import Decl, all_class_decls
 from pyvc import smt
 from pyvc.loader import REPO, new_world, read_ast
 from pyvc.smt import And, Eq, Implies, Not, Or, TRUE, FALSE
+from pyvc.symex import VFunc
 from pyvc.symex import (
     Ctx,
     FunctionInfo,
@@ -279,10 +281,22 @@ def build_hook_world(live) -> World:
             short = obj.__name__.split(".")[-1]
             world.namespaces[f"pkg.{short}"] = mns
             hns[name] = VModule(f"pkg.{short}")
+        elif isinstance(obj, logging.Logger):
+            hns[name] = VOpaque("<logger>")
         else:
             cv = _closure_value(world, obj)
             if cv is not None and not isinstance(obj, type):
                 hns[name] = cv
+    # module-level helper functions of _hooks.py are executed (inlined) when a hook calls them; the registration functions are not helpers
+    try:
+        tree = read_ast(os.path.join(REPO, HOOKS_REL))
+        for node in tree.body:
+            if isinstance(node, ast.FunctionDef) and not node.name.startswith("_register") and node.name not in ("register_hooks", "_resolve_forward_references") and node.name not in hns:
+                q = f"{HOOKS_REL}::{node.name}"
+                world.functions[q] = FunctionInfo(q, node, None, HOOKS_REL, "hooks", inline=True)
+                hns[node.name] = VFunc(q)
+    except (OSError, SyntaxError):
+        pass
     world.namespaces["hooks"] = hns
     return world
 
